@@ -39,10 +39,14 @@ OBLIGATIONS = [
         "C29_state_roundtrip",
         "C29_transient_recreated",
         "C29_witness_unpaired",
+        "follow_heapRT",
+        "C29_stable_of_generated",
+        "C29_deep_roundtrip",
+        "C29_witness_worker_recreated",
     )
 ]
 LEAN_TARGETS = ["PydraModel.Props.C29"]
-MODEL_TARGETS = ["PydraModel.Pickle.Model", "PydraModel.Gen.PickleState", "PydraModel.DriverUtil"]
+MODEL_TARGETS = ["PydraModel.Pickle.Model", "PydraModel.Pickle.Deep", "PydraModel.Gen.PickleState", "PydraModel.DriverUtil"]
 EXTRACTORS = [extract_pickle_state]
 
 
@@ -64,9 +68,17 @@ def _same(name, a, b) -> bool:
         return type(a).__name__ == type(b).__name__ and a._checksum == b._checksum
     try:
         r = a == b
-        return bool(r) if isinstance(r, bool) else a is b
+        if isinstance(r, bool) and r:
+            return True
     except Exception:
         return False
+    # objects without __eq__ of their own (Audit, Messenger, …): same class and structurally equal state
+    if type(a) is type(b) and type(a).__eq__ is object.__eq__ and hasattr(a, "__dict__"):
+        da, db = vars(a), vars(b)
+        return da.keys() == db.keys() and all(_same(k, da[k], db[k]) for k in da)
+    if type(a) is type(b) and isinstance(a, (list, tuple)) and len(a) == len(b):
+        return all(_same(name, x, y) for x, y in zip(a, b))
+    return False
 
 
 def state_roundtrip(obj) -> tuple[dict, dict]:
@@ -149,6 +161,142 @@ def part_a(ctx):
         spec_ok = all(k in ("same", "none") and (k != "none" or c["attrs"][a] == "none") for a, k in kinds.items() if a not in transient)
         ctx.count("state:" + c["class"])
         ctx.judge(c, kinds, model, spec_ok, nontrivial=False, what="__setstate__(__getstate__(obj)) attribute by attribute")
+
+
+# ---------------------------------------------------------------------------------- part A': object-graph round trip
+
+MODELLED = ("Job", "Submitter", "Result", "Worker", "ConcurrentFuturesWorker", "DebugWorker", "SlurmWorker", "SgeWorker")
+SGE_KEPT = ("poll_delay", "qsub_args", "write_output_files", "max_job_array_length", "indirect_submit_host", "max_threads",
+            "poll_for_result_file", "default_threads_per_task", "polls_before_checking_evicted", "collect_jobs_delay",
+            "default_qsub_args", "max_mem_free")
+
+
+def transient_of(cls: str, attrs) -> set:
+    """mirror of `transient` in Props/C29.lean"""
+    if cls in ("Submitter", "Worker", "DebugWorker"):
+        return {"loop"}
+    if cls == "ConcurrentFuturesWorker":
+        return {"loop", "pool"}
+    if cls == "SlurmWorker":
+        return {"loop", "error"}
+    if cls == "SgeWorker":
+        return {"loop", "error"} | {a for a in attrs if a not in SGE_KEPT}
+    return set()
+
+
+def flatten(root):
+    """heap description for the model driver + attribute paths (object 0 = root)"""
+    heap, paths, stable = [], [], []
+
+    def visit(o, prefix, ok):
+        i = len(heap)
+        heap.append(None)
+        attrs = {}
+        items = _attrs_of(o)
+        tr = transient_of(type(o).__name__, items)
+        for a, v in items.items():
+            ok_a = ok and a not in tr
+            paths.append(prefix + [a])
+            stable.append(ok_a)
+            if type(v).__name__ in MODELLED and ok_a:
+                attrs[a] = {"ref": visit(v, prefix + [a], ok_a)}
+            else:
+                attrs[a] = "none" if v is None else "value"
+        heap[i] = {"class": type(o).__name__, "attrs": attrs}
+        return i
+
+    visit(root, [], True)
+    return heap, paths, stable
+
+
+_MISSING = object()
+
+
+def _get(o, path):
+    for a in path:
+        if o is _MISSING or o is None:
+            return _MISSING
+        d = _attrs_of(o)
+        o = d.get(a, _MISSING) if a in d else getattr(o, a, _MISSING)
+    return o
+
+
+def graph_roundtrip(ctx, label, obj, via):
+    """pickle the whole object (every nested __getstate__/__setstate__ runs) and compare path by path"""
+    import pickle
+
+    import cloudpickle as cp
+
+    heap, paths, stable = flatten(obj)
+    new = cp.loads(cp.dumps(obj)) if via == "cloudpickle" else pickle.loads(pickle.dumps(obj))
+    kinds = []
+    for p in paths:
+        b, a = _get(obj, p), _get(new, p)
+        if a is _MISSING:
+            kinds.append("absent")
+        elif a is None:
+            kinds.append("none")
+        elif type(b).__name__ in MODELLED:
+            kinds.append("same" if type(a) is type(b) else "fresh")
+        elif b is not None and b is not _MISSING and _same(p[-1], b, a):
+            kinds.append("same")
+        else:
+            kinds.append("fresh")
+    case = {"part": "graph", "object": label, "via": via, "heap": heap, "paths": [".".join(p) for p in paths]}
+    ans = ctx.driver("Pickle", [{"heap": heap, "paths": paths}])
+    model = None
+    if ans is not None:
+        if "kinds" not in ans[0]:
+            ctx.tie_broken.append({"kind": "model-driver", "detail": ans[0]})
+        else:
+            model = ans[0]["kinds"]
+    # transient values re-created equal to the old ones ({} for {}) cannot be told apart by value: compare stable paths
+    # exactly and transient ones up to same/fresh
+    def norm(ks):
+        return None if ks is None else [k if st or k not in ("same", "fresh", "none") else "recreated-or-none" for k, st in zip(ks, stable)]
+
+    before_none = [_get(obj, p) is None for p in paths]
+    spec_ok = all(k == "same" or (k == "none" and bn) for k, st, bn in zip(kinds, stable, before_none) if st)
+    ctx.count("graph:" + label.split("[")[0] + ":" + via)
+    ctx.judge(case, dict(zip(case["paths"], norm(kinds))), None if model is None else dict(zip(case["paths"], norm(model))), spec_ok,
+              nontrivial=True, what="pickle round trip of the object graph, attribute path by attribute path")
+
+
+def part_a_deep(ctx):
+    from pydra.engine.job import Job
+    from pydra.engine.submitter import Submitter
+    from pydra.workers import cf, debug, slurm
+
+    from harness.engines import pickle_tasks as T
+
+    root = ctx.scratch / "graphA"
+    root.mkdir(exist_ok=True)
+    rng = ctx.rng
+    made = []
+    # submitters handed an already configured Worker INSTANCE (worker_kwargs is then empty), by name + kwargs, and
+    # a worker re-configured after the submitter was built
+    n1, n2 = rng.choice([2, 3, 5]), rng.choice([2, 3, 5])
+    pd, sa = rng.choice([3, 7, 11]), rng.choice(["--partition=long", "-N2 --mem=1G", "-q"])
+    specs = [
+        ("cf-instance", lambda: Submitter(worker=cf.ConcurrentFuturesWorker(n_procs=n1), cache_root=root / "a")),
+        ("cf-kwargs", lambda: Submitter(worker="cf", cache_root=root / "b", n_procs=n2)),
+        ("slurm-instance", lambda: Submitter(worker=slurm.SlurmWorker(poll_delay=pd, sbatch_args=sa), cache_root=root / "c")),
+        ("slurm-kwargs", lambda: Submitter(worker="slurm", cache_root=root / "d", poll_delay=pd, sbatch_args=sa)),
+        ("debug-instance", lambda: Submitter(worker=debug.DebugWorker(), cache_root=root / "e")),
+    ]
+    for label, mk in specs:
+        sub = mk()
+        made.append(sub)
+        if label == "cf-kwargs":
+            sub.worker.n_procs = n2 + 1  # configuration changed after construction must travel too
+        graph_roundtrip(ctx, f"Submitter[{label}]", sub, "cloudpickle")
+        for task, tl in ((T.Add(a=1, b=2), "Add"), (T.AddTwice(x=1, y=2), "AddTwice")):
+            job = Job(task=task, submitter=sub, name="main")
+            if rng.random() < 0.5:
+                job.checksum
+            graph_roundtrip(ctx, f"Job[{tl},{label}]", job, rng.choice(["cloudpickle", "pickle"]))
+    for sub in made:
+        sub.close()
 
 
 # ---------------------------------------------------------------------------------- part B: process round trip
@@ -306,6 +454,7 @@ D35_WITNESS = {"part": "process", "task": "MulDyn", "worker": "debug", "seed": 7
 def correspondence(ctx):
     core.assert_repo_loaded()
     part_a(ctx)
+    part_a_deep(ctx)
     if any(f["id"] == "D35" for f in ctx.known()):
         before = len(ctx.violations), ctx.attributed.get("D35", 0)
         part_b(ctx, 0, fixed=[D35_WITNESS])
@@ -315,6 +464,7 @@ def correspondence(ctx):
 
 
 def search(ctx):
+    part_a_deep(ctx)
     part_b(ctx, ctx.pick(24, 80))
     part_c(ctx, ctx.pick(8, 24))
 
